@@ -25,7 +25,8 @@ def one(args):
             p = subprocess.run([os.path.join(HERE, 'check.py'), c], cwd=HERE, env=env, stdout=subprocess.PIPE, stderr=subprocess.STDOUT, text=True)
             first = [l.strip()[:260] for l in p.stdout.splitlines() if re.match(r'^\s+\S+:\d+ C\d\d-R', l) or 'ANALYSIS-ERROR' in l or 'Traceback' in l]
             if p.returncode != 0 or c == prop:
-                out[c] = {'exit': p.returncode, 'first': first[:3]}
+                out[c] = {'exit': p.returncode, 'first': first[:3], 'rules': sorted(set(re.findall(r'^\s+\S+:\d+ (C\d\d-R\w+):', p.stdout, re.M))),
+                          'violations': p.stdout.count('VIOLATION property='), 'analysis_error': 'ANALYSIS-ERROR' in p.stdout}
         return item, out
     finally:
         shutil.rmtree(t, ignore_errors=True)
@@ -36,7 +37,7 @@ def main(argv):
     a = [x for x in argv[1:] if not x.startswith('--')]
     root, sel = a[0], a[1:]
     items = sel or sorted('%s/%s' % (p, n) for p in os.listdir(root) if os.path.isdir(os.path.join(root, p))
-                          for n in os.listdir(os.path.join(root, p)) if os.path.exists(os.path.join(root, p, n, 'patch.diff')))
+                          for n in os.listdir(os.path.join(root, p)) if os.path.exists(os.path.join(root, p, n, 'patch.diff')) and not os.path.exists(os.path.join(root, p, n, 'OBSOLETE')))
     with ThreadPoolExecutor(max_workers=10) as ex:
         res = list(ex.map(one, [(root, i, everything) for i in items]))
     hit = 0
@@ -50,7 +51,22 @@ def main(argv):
         for l in own.get('first', [])[:2]:
             print('      ' + l)
     print('%d candidates, %d detected by their own check' % (len(res), hit))
-    json.dump(dict(res), open(os.path.join(root, 'EVAL.json'), 'w'), indent=1, sort_keys=True)
+    if '--results' in argv:
+        # the format of tools/seed_eval.py (seeded/RESULTS.json, read by tools/gen_status.py)
+        path = os.path.join(root, 'RESULTS.json')
+        results = json.load(open(path)) if (sel and os.path.exists(path)) else {}
+        for item, out in res:
+            prop = item.split('/')[0]
+            if out.get('applied') is False:
+                results[item] = {'applied': False, 'error': out.get('error', '')}
+                continue
+            own = out.get(prop, {})
+            results[item] = {'applied': True, 'own': {k: own.get(k) for k in ('exit', 'rules', 'violations', 'analysis_error', 'first')},
+                             'others': {c: {'exit': v['exit'], 'rules': v.get('rules', [])} for c, v in out.items() if c != prop and v.get('exit')},
+                             'verdict': 'DETECTED' if own.get('exit') == 1 else ('ANALYSIS-ERROR' if own.get('exit') == 2 else 'MISSED')}
+        json.dump(results, open(path, 'w'), indent=1, sort_keys=True)
+    else:
+        json.dump(dict(res), open(os.path.join(root, 'EVAL.json'), 'w'), indent=1, sort_keys=True)
 
 
 if __name__ == '__main__':
